@@ -10,9 +10,10 @@ import (
 )
 
 type CaseValue struct {
-	Type string  `json:"type"`
-	V    *Value  `json:"v"`
-	Pre  []PreOp `json:"pre,omitempty"` // prior calls in the same process
+	Type  string  `json:"type"`
+	V     *Value  `json:"v"`
+	Pre   []PreOp `json:"pre,omitempty"`   // prior calls in the same process
+	Prior *Value  `json:"prior,omitempty"` // if set: the receiver has decoded this other message of the type before (a reused message object)
 }
 
 func oracleC01(c *CaseValue) *Failure {
@@ -35,7 +36,7 @@ func oracleC01(c *CaseValue) *Failure {
 	if err != nil {
 		return failf("C01/"+c.Type+"/encode-error", "Encode refused a canonical value: %v", err)
 	}
-	dec, _, err, pan := LibDecode(c.Type, out)
+	dec, _, err, pan := LibDecodeInto(UsedReceiver(c.Type, c.Prior), c.Type, out)
 	if pan != nil {
 		return failf("C01/"+c.Type+"/decode-panic", "Decode panicked on the library's own encoding: %v", pan)
 	}
@@ -108,6 +109,10 @@ func rpC01(types []string) (out []RProp) {
 			c := &CaseValue{Type: tn, V: v, Pre: pre}
 			if len(pre) > 0 {
 				Col.Class("after-prior-calls", 1)
+			}
+			if hasVariableParts(tn) && rapid.IntRange(0, 3).Draw(rt, "used") == 0 {
+				c.Prior, _ = GenValue(rt, tn, GenOpts{Mode: Canonical, MaxList: 40})
+				Col.Class("decoded-into-a-receiver-that-held-another-message", 1)
 			}
 			c01Record(c, ft, "random")
 			return c
